@@ -277,7 +277,7 @@ func (w *c20World) must(msg sdk.Msg) chain.ExecResult {
 }
 
 func runC20(c *vk.Ctx) {
-	c.R.Rule = "cases = histories on a real app with 4 users, an LP, a balancer pool and a concentrated pool whose share denoms are superfluid assets. World operations create and evolve owned objects (concentrated positions incl. superfluid full-range ones, position transfers, locks that are plain / unlocking / superfluid-delegated / undelegating with reward receivers, factory denoms with admin changes and renounced admins, factory tokens locked in x/lockup and held by pools). Probes: for an object and each message type acting on it (5 concentrated-liquidity, 4 lockup, 7 superfluid, 6 token-factory message types) the message is executed for the rightful sender on a discarded fork (validity), then for every other sender kind (other users, previous owners/admins/creators, reward receiver, pool addresses, 11 module accounts, validator owner, intermediary account) on further forks: it must fail, and the fork digest over all stores must be unchanged. Admin probes on protected module accounts: mint-to, burn-from, force-transfer-from/to. distinct_nontrivial counts distinct (message type, object kind, object state, sender kind) tuples among probes whose message was valid for the rightful sender (or for which nobody is entitled)."
+	c.R.Rule = "cases = histories on a real app with 4 users, an LP, a balancer pool and a concentrated pool whose share denoms are superfluid assets. World operations create and evolve owned objects (concentrated positions incl. superfluid full-range ones, position transfers, locks that are plain / unlocking / superfluid-delegated / undelegating with reward receivers, factory denoms with admin changes and renounced admins, factory tokens locked in x/lockup and held by pools). Probes: for an object and each message type acting on it (5 concentrated-liquidity, 4 lockup, 7 superfluid, 6 token-factory message types) the message is executed for the rightful sender on a discarded fork (validity), then for every other sender kind (other users, previous owners/admins/creators, reward receiver, pool addresses, 11 module accounts, validator owner, intermediary account) on further forks: it must fail, and the fork digest over all stores must be unchanged. Admin probes on protected module accounts (named in lower- or upper-case bech32): mint-to, burn-from, force-transfer-from/to. Re-creation of an existing denom by its creator (whatever became of the admin) must fail. distinct_nontrivial counts distinct (message type, object kind, object state, sender kind) tuples among probes whose message was valid for the rightful sender (or for which nobody is entitled)."
 	nHist := c.N(240, 24000)
 	opsPer := c.N(60, 100)
 	c.Cases("history", nHist, func(i int, r *vk.Rng) {
@@ -670,6 +670,21 @@ func runC20(c *vk.Ctx) {
 				if w.stop {
 					return
 				}
+				// an existing denom cannot be created again, by its creator or anybody else, whatever became of its
+				// admin (re-creation would hand the admin powers back to the creator)
+				if parts := strings.SplitN(d.denom, "/", 3); len(parts) == 3 && r.Intn(2) == 0 {
+					c.Eval(1)
+					fork := ch.Fork()
+					cm := &tftypes.MsgCreateDenom{Sender: w.users[d.creator].Addr.String(), Subdenom: parts[2]}
+					res := ch.ExecOn(fork, cm)
+					am, _ := ch.App.TokenFactoryKeeper.GetAuthorityMetadata(fork, d.denom)
+					am0, _ := ch.App.TokenFactoryKeeper.GetAuthorityMetadata(ch.Ctx, d.denom)
+					if res.OK() || am.Admin != am0.Admin {
+						c.Violate("C20.unauthorized_success", map[string]any{"msg": "MsgCreateDenom", "sender_kind": "creator-again", "object": "denom", "state": state}, "MsgCreateDenom for the existing denom %s (%s) by its creator: ok=%v, admin %q -> %q\nmessage: %s", d.denom, state, res.OK(), am0.Admin, am.Admin, cm.String())
+						return
+					}
+					c.Class("MsgCreateDenom|denom|%s|creator-again|nobody-entitled", state)
+				}
 				// protected module accounts: even the admin cannot mint into, burn from or force-transfer out of / into them
 				if right != nil {
 					mods := []string{"lockup", "gamm", "tokenfactory", "superfluid", "bonded_tokens_pool", "distribution"}
@@ -680,11 +695,17 @@ func runC20(c *vk.Ctx) {
 					if held.IsPositive() {
 						amt = held
 					}
+					// the module account is named in its usual spelling or in the (equally valid) all-upper-case bech32 spelling
+					mas := ma.String()
+					spelling := "lower"
+					if r.Intn(3) == 0 {
+						mas, spelling = strings.ToUpper(mas), "upper"
+					}
 					for _, pm := range []sdk.Msg{
-						&tftypes.MsgMint{Sender: right.String(), Amount: coin(d.denom, 5), MintToAddress: ma.String()},
-						&tftypes.MsgBurn{Sender: right.String(), Amount: sdk.NewCoin(d.denom, amt), BurnFromAddress: ma.String()},
-						&tftypes.MsgForceTransfer{Sender: right.String(), Amount: sdk.NewCoin(d.denom, amt), TransferFromAddress: ma.String(), TransferToAddress: right.String()},
-						&tftypes.MsgForceTransfer{Sender: right.String(), Amount: coin(d.denom, 1), TransferFromAddress: right.String(), TransferToAddress: ma.String()},
+						&tftypes.MsgMint{Sender: right.String(), Amount: coin(d.denom, 5), MintToAddress: mas},
+						&tftypes.MsgBurn{Sender: right.String(), Amount: sdk.NewCoin(d.denom, amt), BurnFromAddress: mas},
+						&tftypes.MsgForceTransfer{Sender: right.String(), Amount: sdk.NewCoin(d.denom, amt), TransferFromAddress: mas, TransferToAddress: right.String()},
+						&tftypes.MsgForceTransfer{Sender: right.String(), Amount: coin(d.denom, 1), TransferFromAddress: right.String(), TransferToAddress: mas},
 					} {
 						c.Eval(1)
 						before := ch.Bal(ma, d.denom)
@@ -695,7 +716,7 @@ func runC20(c *vk.Ctx) {
 							c.Violate("C20.module_account_reached", map[string]any{"msg": msgName(pm), "module": mod}, "%s by the admin reached into the %s module account (holding %s%s): ok=%v balance %s -> %s\nmessage: %s", msgName(pm), mod, before, d.denom, res.OK(), before, after, pm.String())
 							return
 						}
-						c.Class("%s|module-account:%s|holds-%v", msgName(pm), mod, held.IsPositive())
+						c.Class("%s|module-account:%s|holds-%v|%s", msgName(pm), mod, held.IsPositive(), spelling)
 					}
 				}
 			}
